@@ -191,6 +191,30 @@ pub fn c14(tier: &str) -> i32 {
             }
         }
     }
+    // alias-relation closure: kind classes + which roots are the same cell / reach each other. Runs to fixpoint inside
+    // a depth box, so cycles that need long detours through the memo (e.g. EMPTY_SET DUP TUPLE1 MEMOIZE POP MARK
+    // BINGET ADDITEMS, 8 opcodes) are reached although no state on the way is deeper than 3 slots.
+    for p in (0..=5u8).rev() {
+        let (d, m) = match (quick, p) {
+            (true, 5) | (true, 3) => (3, 1),
+            (true, _) => (2, 1),
+            (false, 0) => (4, 2),
+            (false, _) => (3, 2),
+        };
+        let cfg = Cfg::new(p).flags(true, true);
+        let opts = Opts { max_depth: d, max_memo: m, dev_budget: 0, frame: FrameSel::Off, ref_in_key: false, alias_key: true, ..Opts::default() };
+        let t0 = std::time::Instant::now();
+        let ex = Explorer { base_cfg: cfg, opts, monitor: &guard, xval_full: Default::default() };
+        let out = ex.explore(None);
+        let l = format!("P{p}/none/alias-relation/D{d}M{m}");
+        if verbose {
+            eprintln!("plan {l:<40} states={:>8} transitions={:>10} found={} {:.2}s", out.stats.states, out.stats.transitions, out.found.len(), t0.elapsed().as_secs_f64());
+        }
+        rep.add_stats(&l, &out.stats);
+        for fd in &out.found {
+            rep.finding(fd);
+        }
+    }
     // histories: generate / reset / drop sequences and seeded default-size pickles
     let mut jobs: Vec<(Cfg, u64, Vec<Call>)> = vec![];
     let inputs: Vec<Vec<u8>> = vec![vec![], vec![0xff; 64], (1..=120u8).collect(), vec![0x5a; 300]];
